@@ -1,18 +1,20 @@
 """C05 — timers fire exactly at their deadline and are never lost."""
 import itertools
+import collections
 
 ID = "C05"; MODEL = "timer"; IMPL = "timer"
 COQ_PROP = "Properties/C05.v"; COQ_DIRS = ["Common", "Timer"]
 COQ_MODULE = "Timer.Model"; RUN_FN = "run"
 THEOREMS = ["C05_Inv_wake_preserved", "C05_Inv_wake_every_history", "C05_never_early", "C05_woken_exactly_at_deadline",
             "C05_never_late_never_lost", "C05_complete_run_wakes_at_deadline", "C05_futures_keep_invariant",
-            "C05_composite_event_is_driver_event",
+            "C05_composite_event_is_driver_event", "C05_woken_through_last_poller",
             "C05_due_deadline_completes_immediately",
             "C05_timeout_ok_iff_inner_first", "C05_interval_ticks"]
 QUICK_N = 2500; THOROUGH_N = 150000
 RULE = ("scripts = 1..6 tasks on 1..2 async modules, each task a list of sleep / sleep_until / timeout(d, sleep x | flip) / "
         "select!{sleep a, sleep b} (biased or not) / interval(period, Burst|Delay|Skip, busy delays between ticks) / "
-        "pinned sleep polled+reset / pinned sleep polled+dropped / log steps, tasks spawned at start-up or by a message at a scripted "
+        "pinned sleep polled+reset / pinned sleep polled+dropped / boxed sleep polled and handed to another task of the module, which "
+        "awaits it / log steps, tasks spawned at start-up or by a message at a scripted "
         "instant; durations drawn from a small tie-rich set (0,1,5,10,15,20 ns, ms-scale around the 5 ms missed-tick threshold, "
         "far future), structured so that cancelled/dropped/reset timers precede live ones, deadlines coincide across tasks, "
         "messages arrive at wake-up instants; non-trivial = distinct script hitting >= 2 targeted mechanisms")
@@ -22,6 +24,9 @@ TRUSTED = ["tasks are scripts over the timer API (no channels between tasks: tas
            "a task that wakes itself is polled again in the same event",
            "the composition of driver + futures + executor + event set (coq/Timer/Model.v) is validated by these differential runs, not proved"]
 ASSUMPTIONS = ["fewer than 61 task polls per event (tokio's budget is C06's subject)",
+               "generated scripts use every hand-over channel for one send and at most one receive (the order in which tokio runs "
+               "timer-woken and freshly spawned tasks within one event is not modelled, so competing senders/receivers are avoided); "
+               "the monitor does not constrain a task after a receive on a channel with several senders or receivers",
                "times stay below 2^62 ns; an unbiased select! between equal deadlines reports branch 2 (tokio picks by a seeded RNG)"]
 CLAIM = dict(
     text="Machine-checked (Coq 8.16, axiom-free) for the model of des/src/time/driver.rs + refs.rs activate/deactivate as the code is after "
@@ -34,16 +39,17 @@ CLAIM = dict(
          "the driver only through contract-respecting register/drop/reset operations (so the invariant covers them); Timeout polled promptly "
          "yields the value iff the value is ready no later than the deadline (tie: value), else Elapsed at the deadline; interval ticks are "
          "start + k*period when no tick is more than 5 ms late and always under Burst, Delay re-bases on now, Skip jumps to the next "
-         "aligned instant after now. The pinned next() (front slot only) is refuted in Coq by the history register a@5, drop a, "
-         "register b@10, deactivate. In the composite model (coq/Timer/Model.v: scripted tasks, FIFO executor, drivers, event set) every "
+         "aligned instant after now; a registered Sleep polled again by any task (it may have moved) is registered once and woken "
+         "through the task that polled it last. The pinned next() (front slot only) is refuted in Coq by the history register a@5, drop a, "
+         "register b@10, deactivate, the pinned never-refreshed waker by a hand-over script in which the receiving task never resumes. In the composite model (coq/Timer/Model.v: scripted tasks, FIFO executor, drivers, event set) every "
          "module event is proved to be one such driver event with a contract-respecting operation list; beyond that the COMPOSITION "
          "of these layers with the task executor and the event set is validated, not proved: on every invocation scripted async modules (sleep, sleep_until, timeout, interval with all three "
-         "missed-tick behaviours, select!, Sleep::reset, dropped pinned sleeps; several tasks, 1-2 modules, tasks spawned at start-up or "
+         "missed-tick behaviours, select!, Sleep::reset, dropped pinned sleeps, a polled boxed Sleep handed to another task; several tasks, 1-2 modules, tasks spawned at start-up or "
          "by messages) run on the real des runtime and must reproduce the extracted model's per-task logs, run result and end time, and "
          "an independent monitor checks on the implementation's log that every await returned at exactly the deadline computed from the script.",
     note="partial: driver and future layers proved for all histories; their composition with tokio's executor and the event loop is "
-         "validated by differential runs only. Out of scope: tokio's 61-poll budget (C06); a Sleep polled in one task and awaited in "
-         "another (Sleep::poll never refreshes its waker); module shutdown/restart is covered at the driver level only (all entries dropped "
+         "validated by differential runs only. Out of scope: tokio's 61-poll budget (C06); the order in which tokio runs timer-woken and freshly "
+         "spawned tasks within one event (scripts avoid competing senders/receivers on one channel); module shutdown/restart is covered at the driver level only (all entries dropped "
          "= a sequence of drop operations) and is not scripted in the harness (C09). Trusted: Coq kernel; extraction cross-checked "
          "in-Coq on a sample each run; harness/generator quality bounds the tie to the code.",
     technique="Coq invariant proof over all event/operation histories of the driver model, pure-function laws for the futures, "
@@ -102,6 +108,10 @@ def parse_steps(b):
             out.append(("drop", b[i + 1])); i += 2
         elif t == 8:
             out.append(("log",)); i += 1
+        elif t == 9 and left >= 2:
+            out.append(("hand", b[i + 1], b[i + 2])); i += 3
+        elif t == 10 and left >= 1:
+            out.append(("recv", b[i + 1])); i += 2
         else:
             break
     return out
@@ -116,6 +126,8 @@ def enc_step(s):
     if k == "interval": return [5, s[1], s[2], len(s[3])] + list(s[3])
     if k == "reset": return [6, 1 if s[1] else 0, s[2], s[3]]
     if k == "drop": return [7, s[1]]
+    if k == "hand": return [9, s[1], s[2]]
+    if k == "recv": return [10, s[1]]
     return [8]
 
 
@@ -159,6 +171,8 @@ def pretty_step(s):
     if k == "interval": return "interval(%s,%s,busy=[%s])" % (fmt(s[1]), ["Burst", "Delay", "Skip"][s[2]], ",".join(fmt(b) for b in s[3]))
     if k == "reset": return "sleep(%s)%s.reset(now+%s).await" % (fmt(s[2]), ".polled" if s[1] else "", fmt(s[3]))
     if k == "drop": return "drop(polled sleep(%s))" % fmt(s[1])
+    if k == "hand": return "ch%d.send(polled boxed sleep(%s))" % (s[1], fmt(s[2]))
+    if k == "recv": return "ch%d.recv().await.await" % s[1]
     return "log"
 
 
@@ -179,14 +193,40 @@ def skip_next(timeout, now, period):
 
 
 def expect_task(t):
+    """One task on its own (a receive is not followed)."""
+    recs, timers, now, _, _ = walk_task(t, None, None)
+    return recs, timers, now
+
+
+def walk_task(t, sends, chans):
     """Walk the script with the semantics the property states (every await returns at exactly its deadline).
-    Returns (records, timers, end) where records = list of (allowed tuples) per log record and timers =
-    (created, deadline, registered, gone_at) of every timer the task creates (used for mechanism statistics)."""
+    Returns (records, timers, end, status, sent) where records = list of (allowed tuples) per log record, timers =
+    (created, deadline, registered, gone_at) of every timer the task creates (used for mechanism statistics),
+    status = 'done' | 'blocked' (waits for a boxed Sleep that is never / not yet known to be sent) | 'free' (a receive
+    the monitor does not constrain), sent = {(module, channel): (instant of the send, deadline of the sent Sleep)}.
+    sends: what the other tasks are known to send; chans: (module, channel) -> (number of sends, number of receives)."""
     now = t["start"]
     recs, timers = [], []
+    status, sent = "done", {}
     for s in t["steps"]:
         k = s[0]
-        if k == "sleep":
+        if k == "hand":
+            timers.append((now, now + s[2], s[2] > 0, now + s[2]))
+            sent[(t["mod"], s[1])] = (now, now + s[2])
+            recs.append([(now,)])
+        elif k == "recv":
+            key = (t["mod"], s[1])
+            ns, nr = (chans or {}).get(key, (2, 2))
+            if ns == 0:
+                status = "blocked"; break
+            if ns != 1 or nr != 1:
+                status = "free"; break
+            if key not in sends:
+                status = "blocked"; break
+            ts, dl = sends[key]
+            now = max(now, ts); recs.append([(now,)])
+            now = max(now, dl); recs.append([(now,)])
+        elif k == "sleep":
             timers.append((now, now + s[1], s[1] > 0, now + s[1])); now += s[1]; recs.append([(now,)])
         elif k == "until":
             d = max(now, s[1]); timers.append((now, d, d > now, d)); now = d; recs.append([(now,)])
@@ -232,7 +272,28 @@ def expect_task(t):
             timers.append((now, now + s[1], s[1] > 0, now)); recs.append([(now,)])
         else:
             recs.append([(now,)])
-    return recs, timers, now
+    return recs, timers, now, status, sent
+
+
+def expect_all(tasks):
+    """All tasks together: a receive completes when both the receiver has arrived and the Sleep has been sent."""
+    chans = {}
+    for t in tasks:
+        for s in t["steps"]:
+            if s[0] in ("hand", "recv"):
+                a, b = chans.get((t["mod"], s[1]), (0, 0))
+                chans[(t["mod"], s[1])] = (a + 1, b) if s[0] == "hand" else (a, b + 1)
+    sends = {}
+    res = []
+    for _ in range(len(tasks) + 2):
+        res = [walk_task(t, sends, chans) for t in tasks]
+        new = {}
+        for r in res:
+            new.update(r[4])
+        if new == sends:
+            break
+        sends = new
+    return res
 
 
 def task_outputs(script, out):
@@ -260,9 +321,12 @@ def monitor(script, out):
     except ValueError as e:
         return "malformed output: %s" % e
     last = 0
+    exp = expect_all(tasks)
+    all_done = all(e[3] == "done" for e in exp)
     for k, (t, (lg, fin)) in enumerate(zip(tasks, res)):
-        recs, _, fin_t = expect_task(t)
-        last = max(last, fin_t)
+        recs, _, fin_t, status, _ = exp[k]
+        if status == "done":
+            last = max(last, fin_t)
         i = 0
         for j, allowed in enumerate(recs):
             w = len(allowed[0])
@@ -280,11 +344,13 @@ def monitor(script, out):
                 return "task %d: await #%d at t=%d reported %s, expected %s (timeout result / select branch / tick instant)" % (
                     k, j, got[0], list(got[1:]), " or ".join(str(list(a[1:])) for a in allowed))
             i += w
+        if status != "done":
+            continue        # waits for a boxed Sleep nobody sends (or a channel the monitor does not follow): nothing more is demanded
         if i != len(lg):
             return "task %d: %d extra log entries" % (k, len(lg) - i)
         if not fin:
             return "task %d did not finish" % k
-    if not ok:
+    if all_done and not ok:
         return "Runtime::run returned an error although every task finished"
     if end < last:
         return "simulation ended at %d before the last deadline %d" % (end, last)
@@ -298,8 +364,23 @@ def mechanisms(script, out):
     if mods == 2 and len({t["mod"] for t in tasks}) == 2:
         m.add("two_modules")
     per_mod = {0: [], 1: []}
+    exp = expect_all(tasks)
+    sends = {}
+    for e in exp:
+        sends.update(e[4])
     for k, t in enumerate(tasks):
-        _, timers, _ = expect_task(t)
+        if exp[k][3] == "blocked": m.add("receiver_without_sender")
+        now = t["start"]
+        for j, s in enumerate(t["steps"]):
+            if s[0] == "recv" and (t["mod"], s[1]) in sends and exp[k][3] == "done":
+                _, _, arrive, _, _ = walk_task({"mod": t["mod"], "start": t["start"], "steps": t["steps"][:j]}, sends,
+                                               collections.defaultdict(lambda: (1, 1)))
+                ts, dl = sends[(t["mod"], s[1])]
+                tr = max(arrive, ts)
+                m.add("handed_over_sleep_awaited_before_deadline" if tr < dl else "handed_over_sleep_already_due")
+                if arrive < ts: m.add("receiver_waits_for_send")
+    for k, t in enumerate(tasks):
+        timers = exp[k][1]
         for tm in timers:
             per_mod[t["mod"]].append((k,) + tm)
         for s in t["steps"]:
@@ -329,7 +410,7 @@ def mechanisms(script, out):
                         dl += s[1]
                     now += b
             else:
-                _, _, now = expect_task({"start": now, "steps": [s]})
+                _, _, now = expect_task({"mod": t["mod"], "start": now, "steps": [s]})
     for mod, tms in per_mod.items():
         live = [x for x in tms if x[3]]
         for a in live:
@@ -413,6 +494,22 @@ def gen_script(rng):
             _, _, now = expect_task(t)
             steps.append(gen_step(rng, now))
         tasks.append(t)
+    # hand-over: a boxed Sleep polled by one task and awaited by another task of the same module, one channel per pair
+    ch = 0
+    while rng.random() < (0.35 if ch == 0 else 0.25) and ch < 3:
+        cand = [(i, j) for i in range(nt) for j in range(nt) if i != j and tasks[i]["mod"] == tasks[j]["mod"]]
+        r = rng.random()
+        if cand and r < 0.9:
+            i, j = rng.choice(cand)
+            tasks[i]["steps"].insert(rng.randint(0, len(tasks[i]["steps"])), ("hand", ch, rng.choice([5, 10, 10, 15, 20, 25, 0, 10 * MS])))
+            tasks[j]["steps"].insert(rng.randint(0, len(tasks[j]["steps"])), ("recv", ch))
+        elif r < 0.95:
+            i = rng.randrange(nt)
+            tasks[i]["steps"].insert(rng.randint(0, len(tasks[i]["steps"])), ("hand", ch, rng.choice([5, 10, 20])))
+        else:
+            i = rng.randrange(nt)
+            tasks[i]["steps"].append(("recv", ch))
+        ch += 1
     return encode(mods, tasks)
 
 
@@ -432,7 +529,8 @@ EX_ALPHABET = [("sleep", 5), ("sleep", 10), ("sleep", 15),
 def exhaustive():
     """(1) every script of two tasks on one module, both spawned at start-up, each of <= 3 steps over the 9-symbol alphabet
     EX_SMALL (durations 5/10/15), up to the order of the two tasks; (2) every script of two tasks on one module, the first of
-    <= 3 steps spawned at start-up, the second of 1..2 steps spawned by a message at t=5, over the 13-symbol alphabet EX_ALPHABET"""
+    <= 3 steps spawned at start-up, the second of 1..2 steps spawned by a message at t=5, over the 13-symbol alphabet EX_ALPHABET;
+    (3) every hand-over script [<=1 step] send(sleep 5/10/15) [<=1 step] | [<=1 step] receive+await [<=1 step] over EX_SMALL"""
     seqs = [s for n in range(0, 4) for s in itertools.product(EX_SMALL, repeat=n)]
     for i, a in enumerate(seqs):
         for b in seqs[i:]:
@@ -442,3 +540,14 @@ def exhaustive():
     for a in seqs3:
         for b in seqs2:
             yield encode(1, [{"mod": 0, "start": 0, "steps": list(a)}, {"mod": 0, "start": 5, "steps": list(b)}])
+    # (3) hand-over: sender = [<=1 step] send(sleep d) [<=1 step], receiver (spawned at 0 or by a message at 5) =
+    # [<=1 step] receive+await [<=1 step], over EX_SMALL and d in 5/10/15
+    opt = [()] + [(x,) for x in EX_SMALL]
+    for pa in opt:
+        for d in (5, 10, 15):
+            for sa in opt:
+                for st in (0, 5):
+                    for pb in opt:
+                        for sb in opt:
+                            yield encode(1, [{"mod": 0, "start": 0, "steps": list(pa) + [("hand", 0, d)] + list(sa)},
+                                             {"mod": 0, "start": st, "steps": list(pb) + [("recv", 0)] + list(sb)}])
